@@ -651,7 +651,11 @@ impl TypeAggregator {
                             .id
                             .as_deref()
                             .expect("interface has no id");
-                        if !self.imports.contains_key(name) {
+                        // The interface may already be imported under a
+                        // semver-compatible name
+                        if !self.imports.contains_key(name)
+                            && self.find_semver_compatible_import(name).is_none()
+                        {
                             self.imports
                                 .insert(name.to_owned(), ItemKind::Instance(owner));
                         }
